@@ -29,6 +29,30 @@ type RunResult struct {
 
 var Props = map[string]*PropSpec{}
 
+// Process-global cryptographic randomness (the proposal nonce comes from
+// crypto/rand inside the library).  The test binary installs a function that
+// re-seeds it; runs that execute several simulations re-seed before each one
+// so that every simulation sees the same nonce stream.
+var (
+	cryptoReseed func(seed uint64)
+	cryptoSeed   uint64
+)
+
+func SetCryptoReseed(f func(seed uint64)) { cryptoReseed = f }
+
+func seedCrypto(seed uint64) {
+	cryptoSeed = seed
+	if cryptoReseed != nil {
+		cryptoReseed(seed)
+	}
+}
+
+func reseedCrypto() {
+	if cryptoReseed != nil {
+		cryptoReseed(cryptoSeed)
+	}
+}
+
 func register(p *PropSpec) { Props[p.ID] = p }
 
 // simpleRun: one scenario, one simulation, a set of oracles.
